@@ -22,7 +22,7 @@ import (
 
 const c09ProdCacheSize = 1024 // aclCacheSize in extras/outbounds/acl.go (asserted by the engine unit)
 
-const c09MaxViolationsPerPart = 3
+const c09MaxViolationsPerPart = 1 // per shard: the enumeration is simplest-first, so this is the shard's minimal case
 
 type c09Replay struct {
 	Kind      string     `json:"kind"` // fresh | history
@@ -234,7 +234,7 @@ func (s *c09Sys) Apply(op int) error {
 			c.hijack = v.HijackAddress.String()
 		}
 		if c != s.want[pi] {
-			return fmt.Errorf("cache entry %v|%v|%d holds %s, the decision for that lookup is %s", k.Host, k.Proto, k.Port, c, s.want[pi])
+			return fmt.Errorf("cache entry %v|%v|%d holds %s; the lookup %v, which a fresh set files under this key, must be answered %s", k.Host, k.Proto, k.Port, c, s.probes[pi], s.want[pi])
 		}
 	}
 	return nil
@@ -460,6 +460,7 @@ func c09Enumerate(sh *evidence.Shard) {
 		ok := c.bfsList(p2, list, 2, 4)
 		return ok && p2.Exhaustive
 	}
+	p2.Note("with 6 distinct lookups and cache size 2 there are 37 cache states per rule list (empty, 6 singletons, 30 ordered pairs); all are reached by depth 2 and every probe is applied in each of them at depth <= 3, so the search saturates below the depth bound 4")
 	if th {
 		c09Lists2(2, bfs)
 	} else {
@@ -546,7 +547,7 @@ func c09ReplayOne(part string, raw json.RawMessage) (bool, bool, string) {
 		}
 		for _, k := range impl.Cache.Keys() {
 			v, _ := impl.Cache.Peek(k)
-			for _, q := range append(append([]c09Query{}, rp.History...), rp.Query) {
+			for _, q := range append(append(append([]c09Query{}, rp.History...), rp.Query), c09Probes()...) {
 				f, _ := c09Compile(rp.Rules, rp.CacheSize)
 				c09Ask(f, q)
 				if ks := f.Cache.Keys(); len(ks) == 1 && ks[0] == k {
@@ -555,7 +556,7 @@ func c09ReplayOne(part string, raw json.RawMessage) (bool, bool, string) {
 						c.hijack = v.HijackAddress.String()
 					}
 					if w := c09WantAns(rp.Rules, c09RefEval(ref, q)); c != w {
-						return fmt.Sprintf("cache entry for %v holds %s, reference %s", q, c, w)
+						return fmt.Sprintf("cache entry %v|%v|%d holds %s; the lookup %v, which a fresh set files under this key, must be answered %s", k.Host, k.Proto, k.Port, c, q, w)
 					}
 				}
 			}
